@@ -24,7 +24,7 @@ LEVEL_TEXT = ("Bounded symbolic model checking of NifFile::CloneShape / CloneChi
               "and the destination must save and reload with the clone intact.")
 LEVEL_NOTE = "Small models; payload concrete or symbolic; engine models as DESIGN.md 2.5."
 
-MODELS_Q = [(SSE, SKIN | EXTRA), (SK, SKIN), (FO4, SKIN), (OB, SKIN), (FO3, 0), (FO76, 0)]
+MODELS_Q = [(SSE, SKIN | EXTRA), (SK, SKIN), (FO4, SKIN), (OB, SKIN), (FO3, 0), (FO76, 0), (SSE, SKIN | SHADERCTRL | BONETREE), (SK, SKIN | BONETREE | SHADERCTRL), (FO4, SHADERCTRL)]
 
 
 def jobs(tier, seed):
